@@ -585,13 +585,17 @@ Valid(F, c) ==
 Derive(F, c) == IF F.name = "gv" THEN GVDerive(c) ELSE [none |-> ""]
 PreludeOf(F) == IF F.name = "DISubprogram" THEN F.prelude \o DISPExtra ELSE F.prelude
 
-\* debug-info fields may be written in any order: every DI configuration is emitted in table order and reversed
+\* debug-info fields may be written in any order: every DI configuration is emitted in table order and reversed;
+\* a node that need not be distinct may also be written inline where it is used (here: as the field of a tuple)
+\* instead of as a numbered definition
+DistinctKinds == {"DICompileUnit", "DIGlobalVariable", "DILexicalBlock", "DISubprogram"}
+Forms(F) == IF ~F.full THEN {"fwd"} ELSE IF F.name \in DistinctKinds THEN {"fwd", "rev"} ELSE {"fwd", "rev", "inline"}
 VARIABLES stage, fam, cfg, rev
 vars == <<stage, fam, cfg, rev>>
-Init == stage = 0 /\ fam = 0 /\ cfg = <<>> /\ rev = FALSE
+Init == stage = 0 /\ fam = 0 /\ cfg = <<>> /\ rev = "fwd"
 Next == \/ stage = 0 /\ fam' \in FamilyIdx /\ stage' = 1 /\ UNCHANGED <<cfg, rev>>
         \/ stage = 1 /\ cfg' \in {c \in Configs(Families[fam]) : Valid(Families[fam], c)} /\ stage' = 2 /\ UNCHANGED fam
-                      /\ rev' \in (IF Families[fam].full THEN BOOLEAN ELSE {FALSE})
+                      /\ rev' \in Forms(Families[fam])
 Spec == Init /\ [][Next]_vars
 
 \* Constructs of LLVM 14 that the in-memory IR of the library has no way to hold (no bfloat kind, no
@@ -613,7 +617,8 @@ EveryAltCovered ==
 
 Emit == stage' = 2 =>
   LET F == Families[fam'] IN
-  Serialize(ToJson([fam |-> F.name, prelude |-> PreludeOf(F), tmpl |-> F.tmpl, order |-> [k \in 1..Len(F.slots) |-> F.slots[IF rev' THEN Len(F.slots) + 1 - k ELSE k].n],
+  Serialize(ToJson([fam |-> F.name, prelude |-> PreludeOf(F), tmpl |-> (IF rev' = "inline" THEN "!20 = !{!" \o F.name \o "({fields})}\n" ELSE F.tmpl), form |-> rev',
+                    order |-> [k \in 1..Len(F.slots) |-> F.slots[IF rev' = "rev" THEN Len(F.slots) + 1 - k ELSE k].n],
                     cfg |-> cfg', dflt |-> Default(F), derived |-> Derive(F, cfg'), di |-> F.full, repr |-> Representable(F, cfg')]) \o "\n", "modules.ndjson",
             [format |-> "TXT", charset |-> "UTF-8", openOptions |-> <<"WRITE", "CREATE", "APPEND">>]).exitValue = 0
 =============================================================================
